@@ -75,6 +75,12 @@ def check_pair(name, on, off):
         if a != b:
             d = next(((x, y) for x, y in zip(a, b) if x != y), (len(a), len(b)))
             return {"first_difference": d}
+        # the filter never ADDS a label: every label of the filtered text labels the same line of the unfiltered one
+        def labelled(t):
+            return [ln for ln in t.split("\n") if re.match(r"^\d+( |$)", ln) and _LABEL.sub("", ln, count=1).strip()]
+        extra = [ln for ln in labelled(on) if ln not in set(labelled(off))]
+        if extra:
+            return {"label_only_with_the_filter_on": extra[:3]}
         # ... and only unused ones: a label still jumped to in the filtered text must still be there
         dang = _dangling(on)
         if dang:
